@@ -758,8 +758,15 @@ func (c *c01boRun) pickTruncate() (int64, string, bool) {
 	}
 	if len(cands) > 0 {
 		// prefer readers started below the oldest offset
+		// ... that have a retained message of their own segment in front of
+		// them which a cut can leave in place
+		feasible := func(st *c01boReader) bool {
+			s := c01boSeg(st.r)
+			o := c.nextRetained(st.pos)
+			return o >= 0 && o+1 <= s.LastOffset() && s.LastOffset() >= lo && o+1 <= n
+		}
 		st := cands[c.rng.Intn(len(cands))]
-		for tries := 0; tries < 3 && st.kind() != "start-below-oldest"; tries++ {
+		for tries := 0; tries < 6 && (st.kind() != "start-below-oldest" || !feasible(st)); tries++ {
 			st = cands[c.rng.Intn(len(cands))]
 		}
 		s := c01boSeg(st.r)
@@ -851,6 +858,9 @@ func c01boCase(rep *kit.Report, ci int, seed uint64) {
 	c.keyStyle = "any"
 	if c.compact {
 		c.keyStyle = []string{"unique-or-nil", "unique-or-nil", "any", "few"}[rng.Intn(4)]
+		if c.keyStyle != "unique-or-nil" && !rng.Chance(1, 5) {
+			c.withHW = true // compaction removes messages only below the HW
+		}
 	}
 	c.dir = vfTempDir("c01bo")
 	defer os.RemoveAll(c.dir)
@@ -991,6 +1001,14 @@ func c01boCase(rep *kit.Report, ci int, seed uint64) {
 				c.opAppend(rng.Range(1, 5))
 			}
 		case x < 80:
+			if f := c.nextRetained(0); c.compact && c.withHW && c.keyStyle != "unique-or-nil" && f >= 0 && c.hw < c.n()-1 && rng.Bool() {
+				// commit first, so that the pass has something to compact away
+				lo := c.hw + 1
+				if f > lo {
+					lo = f
+				}
+				c.opHW(lo + int64(rng.Intn(int(c.n()-lo))))
+			}
 			c.opClean()
 		case x < 90:
 			lo := c.hw + 1
